@@ -167,7 +167,6 @@ structure HF (f : Field) : Prop where
   sp : ∀ c ∈ f.sp, c = ' ' ∨ c = '\t'
   valueHead : ∀ c ∈ f.value.head?, c ≠ ' ' ∧ c ≠ '\t'
   valueLast : ∀ c ∈ f.value.getLast?, c ≠ '\n' ∧ c ≠ '\r'
-  valueEmpty : f.value = [] → f.sp = []
   conts : ∀ c ∈ f.conts, headP (fun c => c = ' ' || c = '\t') c = true ∧ (∀ x ∈ c.getLast?, x ≠ '\n' ∧ x ≠ '\r')
 
 theorem lstripSpTab_append (sp rest : Str) (hs : ∀ c ∈ sp, c = ' ' ∨ c = '\t')
@@ -851,7 +850,7 @@ theorem hf_of_fieldOk (f : Field) (h : fieldOk policyName f = true) :
   have hncolon : ∀ c ∈ f.name, c ≠ ':' := fun c hc => (hnall c hc).2
   obtain ⟨hvT, hvL⟩ := lineOk_facts f.value hvline
   have hfacts : HF f := by
-    refine ⟨hnne, ?_, hsp, ?_, hvL, ?_, ?_⟩
+    refine ⟨hnne, ?_, hsp, ?_, hvL, ?_⟩
     · intro c hc
       have hr := inRange_facts (hrange c hc)
       exact ⟨headerNameChar_of (hrange c hc) (hncolon c hc), hncolon c hc, hr.1, hr.2.1⟩
@@ -864,10 +863,6 @@ theorem hf_of_fieldOk (f : Field) (h : fieldOk policyName f = true) :
         rw [hcv]
         simp only [headP] at hvhead
         constructor <;> (intro e; subst e; revert hvhead; decide)
-    · intro hv
-      rcases hvsp with h | h
-      · exact absurd hv h
-      · simpa using h
     · intro c hc
       have := hconts c hc
       refine ⟨?_, (lineOk_facts c this.1).2⟩
